@@ -2,6 +2,7 @@ package c20
 
 import (
 	"bytes"
+	"crypto/sha256"
 	"fmt"
 	"os"
 	"regexp"
@@ -83,6 +84,7 @@ type srcChain struct {
 	hdrRaw [][]byte
 	mu     sync.Mutex
 	tries  map[uint32]*trieData
+	states map[uint32]*stateInfo
 }
 
 func encodeHeader(h *block.Header) []byte {
@@ -102,7 +104,7 @@ func decodeHeader(raw []byte) (*block.Header, error) {
 }
 
 func buildSource(t *testing.T, idx, blocks, interval, mtb int) *srcChain {
-	s := &srcChain{idx: idx, I: interval, mtb: mtb, tries: map[uint32]*trieData{}}
+	s := &srcChain{idx: idx, I: interval, mtb: mtb, tries: map[uint32]*trieData{}, states: map[uint32]*stateInfo{}}
 	s.proto = func(c *config.Blockchain) {
 		vchain.AllForks(c)
 		c.MaxTraceableBlocks = uint32(mtb)
@@ -178,6 +180,46 @@ func (s *srcChain) block(i uint32) *block.Block {
 		panic(err)
 	}
 	return b
+}
+
+// stateInfo is what a node retaining the state of height h must be able to
+// read back through its state module.
+type stateInfo struct {
+	root   util.Uint256
+	items  []storage.KeyValue
+	digest [32]byte
+}
+
+func itemsDigest(items []storage.KeyValue) [32]byte {
+	h := sha256.New()
+	for _, it := range items {
+		fmt.Fprintf(h, "%x=%x;", it.Key, it.Value)
+	}
+	var d [32]byte
+	copy(d[:], h.Sum(nil))
+	return d
+}
+
+// stateAt returns the full contract storage of the source at height h as its
+// own state module reads it from the root of h (the source is an archive).
+func (s *srcChain) stateAt(h uint32) *stateInfo {
+	s.mu.Lock()
+	defer s.mu.Unlock()
+	if si := s.states[h]; si != nil {
+		return si
+	}
+	sr, err := s.h.P.BC.GetStateModule().GetStateRoot(h)
+	if err != nil {
+		panic(fmt.Sprintf("source state root %d: %v", h, err))
+	}
+	si := &stateInfo{root: sr.Root}
+	s.h.P.BC.GetStateModule().SeekStates(sr.Root, nil, func(k, v []byte) bool {
+		si.items = append(si.items, storage.KeyValue{Key: bytes.Clone(k), Value: bytes.Clone(v)})
+		return true
+	})
+	si.digest = itemsDigest(si.items)
+	s.states[h] = si
+	return si
 }
 
 // trie collects the MPT nodes and raw items of the state at height p.
@@ -256,6 +298,7 @@ type syncCase struct {
 	Backend string         `json:"backend"`        // mem | bolt | level
 	Trusted uint32         `json:"trusted_header"` // 0: headers are synchronised from genesis
 	GC      int            `json:"gc_period"`      // GarbageCollectionPeriod of the syncing node (0: default)
+	KeepAll bool           `json:"keep_only_latest_state_off"`
 }
 
 type syncer struct {
@@ -286,6 +329,7 @@ type syncer struct {
 	lateDone bool
 	hdrEdge  bool
 	blkEdge  bool
+	forged   bool
 	dir      string // database directory of a disk backend
 }
 
@@ -328,7 +372,7 @@ func nodeCfg(src *srcChain, sc syncCase) func(*config.Blockchain) {
 	mode := sc.Mode
 	return func(c *config.Blockchain) {
 		src.proto(c)
-		c.KeepOnlyLatestState = true
+		c.KeepOnlyLatestState = !sc.KeepAll
 		c.RemoveUntraceableBlocks = true
 		if sc.Trusted > 0 {
 			c.TrustedHeader = config.HashIndex{Hash: src.hdr[sc.Trusted].Hash(), Index: sc.Trusted}
@@ -618,6 +662,46 @@ func (s *syncer) headersStage() *outcome {
 			return &outcome{"sync:headers-stage-never-completes", fmt.Sprintf("header height %d, sync point %d, source height %d, %d steps", hh, s.p, s.src.n, steps)}
 		}
 		x := s.r.Intn(10)
+		if s.sc.Chaos && s.sc.Trusted > 0 && hh+1 == s.sc.Trusted && !s.forged {
+			// once: a header with another hash at the trusted index, preceded by
+			// headers the node considers known (an ordinary overlapping reply)
+			s.forged = true
+			kinds := []string{"timestamp", "nonce", "prev-hash", "next-consensus", "prev-state-root", "merkle-root", "other-chain"}
+			kind := kinds[s.r.Intn(len(kinds))]
+			var forgedH *block.Header
+			if kind == "other-chain" && s.other != nil && int(s.sc.Trusted) < len(s.other.hdr) && s.other.hdr[s.sc.Trusted].Hash() != s.src.hdr[s.sc.Trusted].Hash() {
+				forgedH = s.other.hdr[s.sc.Trusted]
+			} else {
+				if kind == "other-chain" {
+					kind = "nonce"
+				}
+				forgedH = s.mutateHeader(s.sc.Trusted, kind)
+			}
+			if forgedH != nil {
+				var chunk []*block.Header
+				for i := s.sc.Trusted - min(s.sc.Trusted-1, uint32(1+s.r.Intn(3))); i < s.sc.Trusted; i++ {
+					chunk = append(chunk, s.src.hdr[i])
+				}
+				nKnown := len(chunk)
+				chunk = append(chunk, forgedH)
+				for i := s.sc.Trusted + 1; i <= min(s.src.n, s.sc.Trusted+uint32(s.r.Intn(3))); i++ {
+					chunk = append(chunk, s.src.hdr[i])
+				}
+				s.wrong["header:forged-trusted-after-known:"+kind]++
+				s.op("AddHeaders(%d known headers, forged trusted header %d (%s), %d more)", nKnown, s.sc.Trusted, kind, len(chunk)-nKnown-1)
+				_, pv := guard(func() error { return s.mod.AddHeaders(chunk...) })
+				if pv != nil {
+					return &outcome{"sync:AddHeaders-panics:" + normMsg(pv), fmt.Sprint(pv)}
+				}
+				if got := s.bc.HeaderHeight(); got >= s.sc.Trusted {
+					if o := s.checkHeaders(s.sc.Trusted-1, got, false); o != nil {
+						o.sig += ":at-the-trusted-index-after-known-headers"
+						return o
+					}
+				}
+				continue
+			}
+		}
 		if s.sc.Restart["headers"] > 0 && !s.hdrEdge && hh < s.p && hh+8 >= s.p && max(1, s.sc.Trusted) <= hh+1 {
 			// stage boundary: stop exactly at the sync point (one header short of
 			// the end of the stage) and restart there
@@ -638,8 +722,8 @@ func (s *syncer) headersStage() *outcome {
 		if !s.sc.Chaos || x < 6 {
 			// correct chunk with overlap (duplicates of known headers)
 			from := hh + 1
-			if ov := uint32(s.r.Intn(4)); ov < from && from-ov >= max(1, s.sc.Trusted) {
-				from -= ov
+			if ov := uint32(s.r.Intn(4)); ov < from {
+				from -= ov // known headers, also ones below a trusted index
 			}
 			to := min(s.src.n, hh+1+uint32(s.r.Intn(9)))
 			s.op("AddHeaders(%d..%d)", from, to)
@@ -705,6 +789,18 @@ func (s *syncer) headersStage() *outcome {
 					continue
 				}
 				chunk[pos] = m
+			}
+			if pre := uint32(s.r.Intn(4)); pre > 0 && kind != "reversed" && hh >= 1 {
+				// an overlapping reply: headers the node already has (or, below a
+				// trusted index, considers known) in front
+				pre = min(pre, hh)
+				var known []*block.Header
+				for i := hh + 1 - pre; i <= hh; i++ {
+					known = append(known, s.src.hdr[i])
+				}
+				chunk = append(known, chunk...)
+				pos += int(pre)
+				s.wrong["header:fault-after-known-headers"]++
 			}
 			s.wrong["header:"+kind]++
 			s.op("AddHeaders(bad %s at +%d of %d)", kind, pos, len(chunk))
@@ -1219,6 +1315,79 @@ func (s *syncer) compareAtSyncPoint(where string) *outcome {
 	return nil
 }
 
+// checkHistoric reads back, through the node's state module, the state of every
+// height the node has to retain: the node removes untraceable blocks, so its
+// trie works in the garbage-collecting mode and keeps the states of the last
+// MaxTraceableBlocks heights (nodes dropped by later blocks are only marked
+// inactive until GC passes them); states below the sync point were never there.
+func (s *syncer) checkHistoric(i uint32, when string) *outcome {
+	lo := s.p
+	if m := uint32(s.src.mtb); i+1 > m && i+1-m > lo {
+		lo = i + 1 - m
+	}
+	sm := s.bc.GetStateModule()
+	full := map[uint32]bool{lo: true, lo + uint32(s.r.Intn(int(i-lo)+1)): true}
+	for h := lo; h <= i; h++ {
+		want := s.src.stateAt(h)
+		sr, err := sm.GetStateRoot(h)
+		if err != nil {
+			return &outcome{"sync:retained-state-root-missing", fmt.Sprintf("%s: node at %d (sync point %d): GetStateRoot(%d): %v", when, i, s.p, h, err)}
+		}
+		if sr.Root != want.root {
+			return &outcome{"sync:retained-state-root-differs", fmt.Sprintf("%s: node at %d: root of %d is %s, the source's %s", when, i, h, sr.Root.StringLE(), want.root.StringLE())}
+		}
+		var got []storage.KeyValue
+		_, pv := guard(func() error {
+			sm.SeekStates(sr.Root, nil, func(k, v []byte) bool {
+				got = append(got, storage.KeyValue{Key: bytes.Clone(k), Value: bytes.Clone(v)})
+				return true
+			})
+			return nil
+		})
+		age := "older"
+		if h == i {
+			age = "latest"
+		}
+		if pv != nil {
+			return &outcome{"sync:retained-state-unreadable:" + age + ":" + normMsg(pv), fmt.Sprintf("%s: node at %d (sync point %d): SeekStates over the root of %d panics: %v", when, i, s.p, h, pv)}
+		}
+		if itemsDigest(got) != want.digest {
+			return &outcome{"sync:retained-state-unreadable:" + age + ":items-differ", fmt.Sprintf("%s: node at %d (sync point %d, MaxTraceableBlocks %d): the state of height %d read from its root has %d items, the source's has %d", when, i, s.p, s.src.mtb, h, len(got), len(want.items))}
+		}
+		s.run.Obs("sync_retained_states_read_back", 1)
+		if !full[h] {
+			continue
+		}
+		// the whole key set one by one, and a prefix search per contract
+		for _, it := range want.items {
+			v, err := sm.GetState(sr.Root, it.Key)
+			if err != nil || !bytes.Equal(v, it.Value) {
+				return &outcome{"sync:retained-state-unreadable:" + age + ":GetState", fmt.Sprintf("%s: node at %d (sync point %d): GetState(root of %d, %x): %x %v, the source has %x", when, i, s.p, h, it.Key, v, err, it.Value)}
+			}
+		}
+		seen := map[string]bool{}
+		for _, it := range want.items {
+			pfx := string(it.Key[:4])
+			if seen[pfx] {
+				continue
+			}
+			seen[pfx] = true
+			n := 0
+			for _, x := range want.items {
+				if string(x.Key[:4]) == pfx && len(x.Key) > 4 {
+					n++
+				}
+			}
+			kvs, err := sm.FindStates(sr.Root, []byte(pfx), []byte{}, len(want.items)+1)
+			if n > 0 && (err != nil || len(kvs) != n) {
+				return &outcome{"sync:retained-state-unreadable:" + age + ":FindStates", fmt.Sprintf("%s: node at %d: FindStates(root of %d, contract %x) gives %d items (%v), the source has %d", when, i, h, pfx, len(kvs), err, n)}
+			}
+		}
+		s.run.Obs("sync_retained_states_read_key_by_key", 1)
+	}
+	return nil
+}
+
 func (s *syncer) lockstep() *outcome {
 	end := s.src.n
 	if s.sc.Feed < 0 {
@@ -1244,12 +1413,17 @@ func (s *syncer) lockstep() *outcome {
 			return &outcome{"sync:diverged-after-sync:" + n, fmt.Sprintf("height %d (sync point %d): %s", i, s.p, d)}
 		}
 		s.compared++
+		when := "after the block"
 		if (s.sc.GC > 0 && s.r.Intn(2) == 0) || s.r.Intn(1000) < s.sc.Flush {
 			s.op("flush")
 			s.flushes++
+			when = "after the block and a flush (with GC)"
 			if err, pv := guard(func() error { return s.bc.VerifPersist() }); err != nil || pv != nil {
 				return &outcome{"sync:flush-fails:synced", fmt.Sprint(err, pv)}
 			}
+		}
+		if o := s.checkHistoric(i, when); o != nil {
+			return o
 		}
 		if i < end && s.r.Intn(1000) < s.sc.Restart["synced"] {
 			s.op("restart@synced")
@@ -1270,6 +1444,9 @@ func (s *syncer) lockstep() *outcome {
 			}
 			if n, d := obsDiff(s.src.h.P.Obs[i], o); n != "" {
 				return &outcome{"sync:state-differs-after-restart-of-synced-node:" + n, d}
+			}
+			if o := s.checkHistoric(i, "after a restart"); o != nil {
+				return o
 			}
 		}
 	}
